@@ -149,7 +149,10 @@ def ocean_floor(
                 data_array, depth_dimension)
 
             # Extract just the variables with these spatial coordinates
-            dataset_subset = utils.extract_vars(dataset, variable_names)
+            # The bounds of the depth coordinate must not be pulled in to the subset.
+            # They are not data on the water column,
+            # and are dropped along with the depth dimension at the end.
+            dataset_subset = utils.extract_vars(dataset, variable_names, keep_bounds=False)
 
             # Drop any coordinates for this depth variable.
             # For some reason .isel() call will play havok with them,
